@@ -82,6 +82,12 @@ class Boxed:
                 self.base = np.full(a.T.shape[:1] + (a.T.shape[1] + 2,) + a.T.shape[2:], poison) if a.ndim == 2 else None
                 self.base[:, 1:1 + a.shape[0]] = a.T
                 self.obj = self.base[:, 1:1 + a.shape[0]].T
+            elif kind == 'fcontig':
+                # exactly Fortran-contiguous (F_CONTIGUOUS and not C_CONTIGUOUS for >= 2 dims), guard zones before and after
+                self.base = np.full((a.size + 8,), poison)
+                self.base[4:4 + a.size] = a.ravel(order='F')
+                self.obj = self.base[4:4 + a.size].reshape(a.shape[::-1]).T
+                assert self.obj.shape == a.shape and (a.ndim < 2 or min(a.shape) < 2 or (self.obj.flags.f_contiguous and not self.obj.flags.c_contiguous))
             elif kind == 'row':
                 self.base = np.full((3, a.shape[0] + 2), poison)
                 self.base[1, 1:1 + a.shape[0]] = a
@@ -107,7 +113,7 @@ class Boxed:
 
 KINDS_1D_PY = ('list', 'tuple', 'array', 'ndarray', 'strided', 'reversed', 'row', 'readonly')
 KINDS_1D_C = ('array', 'ndarray', 'strided', 'reversed', 'row')
-KINDS_2D = ('ndarray', 'strided', 'reversed', 'fortran', 'transposed')
+KINDS_2D = ('ndarray', 'strided', 'reversed', 'fortran', 'transposed', 'fcontig')
 
 
 def catalogue(E):
@@ -234,7 +240,7 @@ def coll_forms(np, util, values, nd, poison):
         b = [Boxed(np, s, 'ndarray', poison) for s in values]
         forms['SeriesContainer'] = (util.SeriesContainer([x.obj for x in b]), b)
         if len(lens) == 1:
-            for k in ('ndarray', 'strided', 'fortran', 'transposed'):
+            for k in ('ndarray', 'strided', 'fortran', 'transposed', 'fcontig'):
                 bb = Boxed(np, values, k, poison)
                 forms['matrix_' + k] = (bb.obj, [bb])
     else:
@@ -242,8 +248,10 @@ def coll_forms(np, util, values, nd, poison):
         forms['list_of_ndarray2d'] = ([x.obj for x in b], b)
         b = [Boxed(np, s, 'fortran', poison) for s in values]
         forms['list_of_fortran2d'] = ([x.obj for x in b], b)
+        b = [Boxed(np, s, 'fcontig', poison) for s in values]
+        forms['list_of_fcontig2d'] = ([x.obj for x in b], b)
         if len(lens) == 1:
-            for k in ('ndarray', 'strided', 'fortran'):
+            for k in ('ndarray', 'strided', 'fortran', 'fcontig'):
                 bb = Boxed(np, values, k, poison)
                 forms['array3d_' + k] = (bb.obj, [bb])
     return forms
@@ -698,7 +706,7 @@ def run(ctx):
     return core.finish(
         PROP, ctx.tier, ctx.seed, acc,
         rule='every API of a catalogue (25 pair-level, 14 collection-level routines, both engines) x every combination of container representations for its series arguments '
-             '(list, tuple, array.array, ndarray contiguous / strided / reversed / row of a matrix / Fortran / transposed / read-only; list/tuple of arrays, strided rows, SeriesContainer, 2-D and 3-D arrays in C, strided and Fortran order); '
+             '(list, tuple, array.array, ndarray contiguous / strided / reversed / row of a matrix / Fortran-ordered slices / transposed views / exactly F-contiguous / read-only; list/tuple of arrays, strided rows, SeriesContainer, 2-D and 3-D arrays in C, strided and Fortran order); '
              'each array lives in a larger poisoned buffer (two poison values); every call is judged for untouched inputs and guard zones, independence of the poison, repeatability and equality with the canonical representation; '
              'histories: every sequence up to depth 3 of 13 routines sharing the same series objects; every sequence up to depth 3 of the operations of one shared model object (SubsequenceSearch with/without max_dist, SubsequenceAlignment, LocalConcurrences, Hierarchical incl. HierarchicalTree wrappers and a changed max_dist, KMeans with a fixed random seed) and of consumers of one shared settings dictionary, in both engines, each step compared with the same operation on a fresh object; NumPy absent: the NumPy-free routines in a NumPy-less interpreter; non-trivial = non-canonical container or history length >= 2',
         bounds={'values': '4 univariate and 2 bivariate series pairs, 2+2 collections (equal and unequal lengths)', 'history_containers': 'list, SeriesContainer, 2-D matrix (depth 2 in quick)'},
